@@ -21,8 +21,9 @@ func Get1(bm []uint64, i int32) uint64 {
 //
 // Since 0.1.9
 func Getw(bm []uint64, i int32, w int32) uint64 {
-	i *= w
-	return (bm[i>>6] >> uint(i&63)) & Mask[w]
+	// i*w does not fit an int32 beyond the first 2^31 bits of bm.
+	j := int64(i) * int64(w)
+	return (bm[j>>6] >> uint(j&63)) & Mask[w]
 }
 
 // SafeGet is same as Get() except it return 0 instead of a panic when index out
